@@ -130,3 +130,35 @@ func verifHarness_C17_duplicates(k int, bad int) {
 	}
 	verifReach("C17/D2")
 }
+
+// D3: the deprecated constructors are the struct literal plus Initialize: dialect.NewReadWriter serves every message
+// of the dialect (and reports a duplicate id at once), message.NewReadWriter yields the same codec parameters.
+func verifHarness_C17_constructors(dup int) {
+	a, b := &MessageVerifDynA{}, &MessageVerifDynB{}
+	verifDynIDs[0] = verifNondetU32()
+	verifDynIDs[1] = verifNondetU32()
+	verifAssume(verifDynIDs[0] != 4000000 && verifDynIDs[1] != 4000000)
+	if dup == 1 {
+		verifAssume(verifDynIDs[0] == verifDynIDs[1])
+	} else {
+		verifAssume(verifDynIDs[0] != verifDynIDs[1])
+	}
+	d := &Dialect{Version: 3, Messages: []message.Message{a, b}}
+	rw, err := NewReadWriter(d)
+	verifAssert(verifIff(err != nil, dup == 1), "C17/D3/constructor-rejects-exactly-duplicate-ids")
+	if err == nil {
+		verifAssert(rw != nil && rw.Dialect == d, "C17/D3/constructor-keeps-the-dialect")
+		ma, mb := rw.GetMessage(verifDynIDs[0]), rw.GetMessage(verifDynIDs[1])
+		verifAssert(ma != nil && ma.Message == message.Message(a) && mb != nil && mb.Message == message.Message(b), "C17/D3/constructor-serves-every-message")
+		ref := &message.ReadWriter{Message: a}
+		verifAssert(ref.Initialize() == nil, "C17/D3/reference-codec")
+		viaNew, err2 := message.NewReadWriter(a)
+		verifAssert(err2 == nil && viaNew != nil && viaNew.Message == message.Message(a), "C17/D3/message-constructor-ok")
+		if err2 == nil && viaNew != nil {
+			verifAssert(viaNew.CRCExtra() == ref.CRCExtra() && ma.CRCExtra() == ref.CRCExtra(), "C17/D3/same-crc-extra")
+		}
+	}
+	_, err3 := message.NewReadWriter(&MessageVerifBad{})
+	verifAssert(err3 != nil, "C17/D3/message-constructor-rejects-a-malformed-struct")
+	verifReach("C17/D3")
+}
